@@ -174,7 +174,9 @@ def run_linop(ctx, prop, prop_file, n_quick, n_thorough, want):
         if "reject" in want:
             note_fail("gen-exception", "valid construction raised %r" % e, {"kind": "impl-exception", "error": repr(e), "chain": chain(e)})
     rng.shuffle(grid)
-    grid = grid[:ctx.n(120, len(grid))]
+    # the rank-changing stacks are few: always all of them (complex storage), the rest sampled
+    always = [g for g in grid if "rank" in g[1][0] and not g[2]]
+    grid = always + [g for g in grid if g not in always][:ctx.n(120, len(grid))]
     n += len(grid)
     while made < n and attempts < 6 * n:
         attempts += 1
@@ -316,6 +318,37 @@ def run_linop(ctx, prop, prop_file, n_quick, n_thorough, want):
         except Exception as e:
             note_fail("exception:" + top, "valid operator raised %s: %s" % (type(e).__name__, str(e)[:200]),
                       {"kind": "impl-exception", "tree": desc, "term": T, "error": repr(e), "chain": chain(e)})
+    # ---- expression-level overloads (C03): a*A, A*a, -A, A+B, A-B, A*B are the matrix expressions of their OPERANDS ----
+    # (the object graph the overload builds is compared with the model elsewhere; here the expression itself is the reference,
+    #  so an overload that builds a consistent but different operator -- e.g. folding a scalar through a Conj -- is seen)
+    if "dense" in want:
+        for k in range(ctx.n(40, 600)):
+            try:
+                T1 = lingen.gen_tree(sp, rng, rng.choice([0, 0, 1]), None, lingen.EXACT_LEAVES, True, [])
+                if int(np.prod(T1.ishape)) > 24 or int(np.prod(T1.oshape)) > 36:
+                    continue
+                wrap = rng.choice(["plain", "conj", "conj", "H"])
+                T1 = {"plain": lambda: T1, "conj": lambda: sp.linop.Conj(T1), "H": lambda: T1.H}[wrap]()
+                a = complex(rng.randint(-3, 3) or 2, rng.randint(1, 3) * rng.choice([-1, 1]))
+                D1 = linser.dense(T1)
+                T2 = sp.linop.Conj(T1) if rng.random() < 0.5 else (2 - 1j) * T1
+                D2 = linser.dense(T2)
+                T3 = lingen.shape_preserving(sp, rng, list(T1.ishape), True)[0]
+                D3 = linser.dense(T3)
+                exprs = [("a*A", a * T1, a * D1), ("A*a", T1 * a, a * D1), ("-A", -T1, -D1), ("A+B", T1 + T2, D1 + D2),
+                         ("A-B", T1 - T2, D1 - D2), ("A*B", T1 * T3, D1 @ D3), ("a*(A+B)", a * (T1 + T2), a * (D1 + D2)),
+                         ("(a*A)*B", (a * T1) * T3, a * (D1 @ D3)), ("A-a*B", T1 - a * T2, D1 - a * D2)]
+                for nm, op, ref in exprs:
+                    ctx.count(prop + ":overload:" + nm, key=(repr(T1)[:80], nm, k), nontrivial=True)
+                    M = linser.dense(op)
+                    if M.shape != ref.shape or not np.allclose(M, ref, rtol=1e-9, atol=1e-9):
+                        note_fail("overload:" + nm, "the operator built by %s does not act as the matrix expression of its operands (A = %s%s)"
+                                  % (nm, "Conj of " if wrap == "conj" else "", repr(T1)[:100]),
+                                  {"kind": "oracle", "expression": nm, "A": repr(T1)[:200], "a": str(a),
+                                   "max_abs_diff": float(np.abs(M - ref).max()) if M.shape == ref.shape else None})
+            except Exception as e:
+                note_fail("overload-exception", "an overload raised %s: %s" % (type(e).__name__, str(e)[:160]),
+                          {"kind": "impl-exception", "error": repr(e), "chain": chain(e)})
     # ---- malformed stream ----
     if "reject" in want:
         for _ in range(ctx.n(60, 600)):
